@@ -46,6 +46,9 @@ impl EventAccessTracker
         self.data_entity = data_entity;
     }
 
+    #[cfg(feature = "verif_hooks")]
+    pub(crate) fn verif_state(&self) -> (bool, usize) { (self.currently_reacting, self.prepared.len()) }
+
     /// Unsets the 'is reacting' flag.
     ///
     /// Returns the data entity so it can be despawned. It should only be despawned after the *last* reader is done.
